@@ -961,7 +961,7 @@ impl<'a> ActiveFileSet<'a> {
                 continue;
             };
 
-            if file_name.starts_with(&file_prefix) && file_name.ends_with(&file_ext) {
+            if is_file_set_member(file_name, file_prefix, file_ext) {
                 file_set.push(file_name.to_owned());
             }
         }
@@ -1174,6 +1174,39 @@ fn file_ts(roll_by: RollBy, parts: emit::timestamp::Parts) -> String {
 
 fn file_id(rolling_millis: u32, rolling_id: u32) -> String {
     format!("{:<08}.{:<08x}", rolling_millis, rolling_id)
+}
+
+fn is_file_set_member(file_name: &str, file_prefix: &str, file_ext: &str) -> bool {
+    // File names have the form `{prefix}.{ts}.{millis}.{id}.{ext}`
+    // Only the prefix may contain a `.`, so anything between it and the
+    // extension that isn't exactly three non-empty parts belongs to something else,
+    // like a file set with a longer prefix sharing the same directory
+    let Some(parts) = file_name
+        .strip_prefix(file_prefix)
+        .and_then(|rest| rest.strip_prefix('.'))
+        .and_then(|rest| rest.strip_suffix(file_ext))
+        .and_then(|rest| rest.strip_suffix('.'))
+    else {
+        return false;
+    };
+
+    let mut separators = 0;
+    let mut part_len = 0;
+
+    for b in parts.bytes() {
+        if b == b'.' {
+            if part_len == 0 {
+                return false;
+            }
+
+            separators += 1;
+            part_len = 0;
+        } else {
+            part_len += 1;
+        }
+    }
+
+    separators == 2 && part_len != 0
 }
 
 fn read_file_name_ts(file_name: &str) -> Result<&str, io::Error> {
